@@ -804,6 +804,12 @@ impl ActTask for Workflow {
 //@@ end
 //@@ extract file=acts/src/scheduler/process/task/workflow.rs in="impl ActTask for Workflow" item="fn review" name=Workflow::review props=C02,C03
 //@@ opt traitpost
+//@@ spec
+        ensures
+            //# H3-a-review-closes-only-a-running-workflow-and-touches-nothing-else [C03]
+            ret is Ok && (ret->Ok_0 <==> old(h).st(old(h).cur) is Running)
+                && (old(h).st(old(h).cur) is Running ==> *final(h) == set_state_spec(*old(h), old(h).cur, TaskState::Completed))
+                && (!(old(h).st(old(h).cur) is Running) ==> *final(h) == *old(h)),
 //@@ end
 //@@ extract file=acts/src/scheduler/process/task/workflow.rs in="impl ActTask for Workflow" item="fn next" name=Workflow::next props=C03,C04,C02
 //@@ opt traitpost rewrites=R1,R2,R3,R5,R13,R22
@@ -899,9 +905,28 @@ impl ActTask for Branch {
 //@@ end
 //@@ extract file=acts/src/scheduler/process/task/branch.rs in="impl ActTask for Branch" item="fn next" name=Branch::next props=C02,C03,C04
 //@@ opt traitpost
+//@@ spec
+        ensures
+            //# H3-a-branch-that-is-not-running-schedules-nothing [C04]
+            !(old(h).st(old(h).cur) is Running) ==> *final(h) == *old(h) && ret == Ok::<bool, ActError>(false),
+            //# H3-a-running-branch-without-steps-completes-at-once-one-with-steps-schedules-each-of-them-once [C04,C03]
+            old(h).st(old(h).cur) is Running && ret is Ok ==> (ret->Ok_0 <==> n_children(old(h).links_rev, *old(h).tasks[old(h).cur].node).len() > 0)
+                && final(h).queue.len() == old(h).queue.len() + n_children(old(h).links_rev, *old(h).tasks[old(h).cur].node).len()
+                && (n_children(old(h).links_rev, *old(h).tasks[old(h).cur].node).len() == 0 ==> *final(h) == set_state_spec(*old(h), old(h).cur, TaskState::Completed)),
+//@@ loop 1
+        invariant
+            //# steps-scheduled-so-far
+            h.queue.len() == old(h).queue.len() + __i1 && h.links_rev == old(h).links_rev && h.cur == old(h).cur
+                && __v1@ == n_children(old(h).links_rev, *old(h).tasks[old(h).cur].node),
 //@@ end
 //@@ extract file=acts/src/scheduler/process/task/branch.rs in="impl ActTask for Branch" item="fn review" name=Branch::review props=C02,C03
 //@@ opt traitpost
+//@@ spec
+        ensures
+            //# H3-a-review-closes-only-a-running-branch-passes-a-skipped-one-on-and-touches-nothing-else [C03,C04]
+            ret is Ok && (ret->Ok_0 <==> (old(h).st(old(h).cur) is Running || old(h).st(old(h).cur) is Skipped))
+                && (old(h).st(old(h).cur) is Running ==> *final(h) == set_state_spec(*old(h), old(h).cur, TaskState::Completed))
+                && (!(old(h).st(old(h).cur) is Running) ==> *final(h) == *old(h)),
 //@@ end
 }
 
